@@ -428,16 +428,12 @@ func (w *world) renewToken(p prepared) string {
 	return tok
 }
 
-// tokenBits = parses, claimsVerify, tokenUnused, claimsValid, audienceOk, issuerOk of the model's Entry.token
+// tokenBits = parses, claimsVerify, tokenUnused, claimsValid, audienceOk, issuerOk of the model's Entry.token.
+// tokenUnused: the token's own jti has not been used (a.useRenewToken, commit 42a611b): the same for
+// every provisioner type - before that fix a reused token passed for ACME, K8sSA and AWS.
 func tokenBits(c Case) string {
 	b := map[string]string{"ok": "111111", "issp": "111111", "garbage": "011111", "badsig": "101111",
 		"reuse": "110111", "sub": "111011", "exp": "111011", "aud": "111101", "iss": "111110"}
-	if c.Tok == "reuse" && c.State == "typed" && (c.PType == "ACME" || c.PType == "K8sSA" || c.PType == "AWS") {
-		// the third bit is "Authority.UseToken(ott, p) returned nil": UseToken records a token only when
-		// p.GetTokenID(ott) succeeds, and these types' GetTokenID fails on a renew token (ACME and
-		// K8sSA: not implemented; AWS: not an instance identity token) - a reused token passes
-		return "111111"
-	}
 	if c.Tok == "issp" && c.State == "renamed" && (c.Issue == "both" || c.Issue == "dbonly" || c.Issue == "badext+db") {
 		// the old-style issuer claim is the provisioner *name*; the provisioner resolved through the
 		// database id is the renamed one, whose name is no longer the one in the token
